@@ -12,7 +12,7 @@ from props.parser_common import leaf_items, unparse, ref_walk
 from props.c14 import ref_ident
 
 import orjson
-from dznpy.json_ast import DznJsonAst
+from dznpy.json_ast import DznJsonAst, DznJsonError
 from dznpy.scoping import NamespaceIdsTypeError
 
 PROPERTY = 'C16'
@@ -20,24 +20,48 @@ LEVEL = 'model_checking'
 FUNCTIONS = ['json_ast.DznJsonAst.__init__', 'json_ast.DznJsonAst.process',
              'json_ast.DznJsonAst.parse_element', 'json_ast.DznJsonAst.file_contents']
 ASSUMPTIONS = [
-    'histories: sequences of <= 4 (quick) / 5 (thorough) operations over two parser slots and three documents (construct '
+    'histories now include load_file() (real file I/O on temp files) and a malformed document; sequences of <= 4 (quick) / 5 (thorough) operations over two parser slots and three documents (construct '
     'slot with document, process slot); each path fixes the operation sequence (solver-checked) and '
     'runs it on the real public API (constructor with JSON bytes, process())',
     '"equal result" = equal re-serialisation by the independent unparser (and dataclass equality)',
 ]
-OUTSIDE = ('histories longer than the bound, more than two live parser instances, load_file() '
-           '(file I/O; it only sets the same field as the constructor)')
+OUTSIDE = 'histories longer than the bound, more than two live parser instances'
 
 _A, _B = leaf_items('A'), leaf_items('B')
 DOCS = [
     dg.root([_A[0], dg.namespace(['N'], [_A[5], _A[7]]), _A[10]], comment='// d0'),
     dg.root([dg.namespace(['N'], [_B[3], dg.namespace(['M'], [_B[5]])]), _B[11], _B[12], _B[9]]),
-    dg.root([]),
+    # malformed deep inside nested namespaces: parsing this one fails half-way
+    dg.root([_A[7], dg.namespace(['P', 'Q'], [_A[0], dg.namespace(['R'], [_B[10], {'<class>': 'component',
+                                                                                    'name': dg.sn('Broken')}])])]),
 ]
 BYTES = [orjson.dumps(d) for d in DOCS]
-FRESH = [unparse(dg.parse(d)) for d in DOCS]
-assert all(FRESH[i] == ref_walk(DOCS[i]) for i in range(len(DOCS)))
-NOPS = 2 * len(DOCS) + 2      # construct(slot, doc) x 6, process(slot) x 2
+
+
+def _fresh(doc):
+    try:
+        return unparse(dg.parse(doc))
+    except DznJsonError as exc:
+        return ('DznJsonError', str(exc))
+
+
+FRESH = [_fresh(d) for d in DOCS]
+assert all(FRESH[i] == ref_walk(DOCS[i]) for i in range(2)) and FRESH[2][0] == 'DznJsonError'
+import os as _os
+import tempfile as _tempfile
+_DOCDIR = _tempfile.mkdtemp(prefix='vf_c16_')
+FILES = []
+for _i, _b in enumerate(BYTES):
+    _path = _os.path.join(_DOCDIR, f'doc{_i}.json')
+    with open(_path, 'wb') as _fh:
+        _fh.write(_b)
+    FILES.append(_path)
+import atexit as _atexit
+import shutil as _shutil
+_atexit.register(_shutil.rmtree, _DOCDIR, True)
+ND = len(DOCS)
+# operations: construct(slot, doc) | load_file(slot, doc) | process(slot)
+NOPS = 2 * ND + 2 * ND + 2
 
 
 def _history(ops: List[int]) -> bool:
@@ -45,18 +69,31 @@ def _history(ops: List[int]) -> bool:
     slot_doc = [None, None]
     handed_out = []               # (result object, expected unparse at hand-out time)
     for op in ops:
-        if op < 2 * len(DOCS):
-            slot, doc = op // len(DOCS), op % len(DOCS)
+        if op < 2 * ND:
+            slot, doc = op // ND, op % ND
             slots[slot] = DznJsonAst(json_contents=BYTES[doc])
             slot_doc[slot] = doc
-        else:
-            slot = op - 2 * len(DOCS)
+        elif op < 4 * ND:
+            slot, doc = (op - 2 * ND) // ND, (op - 2 * ND) % ND
             if slots[slot] is None:
                 continue
-            res = slots[slot].process()
-            if unparse(res) != FRESH[slot_doc[slot]]:
+            if slots[slot].load_file(FILES[doc]) is not slots[slot]:     # fluent interface
+                return False
+            slot_doc[slot] = doc
+        else:
+            slot = op - 4 * ND
+            if slots[slot] is None:
+                continue
+            expect = FRESH[slot_doc[slot]]
+            try:
+                res = slots[slot].process()
+            except DznJsonError as exc:
+                if expect != ('DznJsonError', str(exc)):
+                    return False      # differs from parsing that document alone
+                continue
+            if unparse(res) != expect:
                 return False          # differs from parsing that document alone
-            handed_out.append((res, FRESH[slot_doc[slot]]))
+            handed_out.append((res, expect))
         for res, exp in handed_out:   # results handed out earlier stay as they were
             if unparse(res) != exp:
                 return False
@@ -92,10 +129,10 @@ def h_twice_wide(s: str, t: str) -> bool:
 
 SPECS = [
     H('h_history', 'deep', pre=['0 <= n <= {L}'] + [f'0 <= o{i} < {NOPS}' for i in range(6)],
-      quick=dict(L=5, ct=280, pt=30), thorough=dict(L=6, ct=1700, pt=30),
+      quick=dict(L=4, ct=280, pt=30), thorough=dict(L=5, ct=1700, pt=30),
       shards=lambda p: [f'o0 == {i} and o1 % 2 == {j}' for i in range(NOPS) for j in range(2)],
-      bounds='every history of <= {L} operations from {{construct slot0/slot1 with one of 3 documents, '
-             'process slot0/slot1}}'),
+      bounds='every history of <= {L} operations from {{construct slot0/slot1 with one of 3 documents (one '
+             'of them malformed inside nested namespaces), load_file into slot0/slot1, process slot0/slot1}}'),
     H('h_twice_wide', 'wide', pre=['len(s) <= {N}', 'len(t) <= {N}'],
       quick=dict(N=2, ct=250, pt=30), thorough=dict(N=3, ct=1500, pt=60),
       bounds='process() twice on one instance; symbolic component name and payload string, len <= {N}'),
